@@ -107,7 +107,8 @@ def check(ctx):
                 if not ok and not why:
                     why = 'get() result is used without a None test that raises a configuration error'
             run.add('C03.total', fn.module.name, fn.qualname, n, ok, why, node=n)
-    if n_reads == 0:
+    from .shared import dzn_elements_by_interpretation as _de
+    if n_reads == 0 and _de(ctx) is None:           # (decided on scenario models below when create_dzn_elements is interpretable)
         run.error('C03.total', cde.module.name, cde.qualname, 'match result reads',
                   'no read of MatchedPorts.value found outside port_selection')
 
@@ -348,84 +349,97 @@ def check(ctx):
     run.floor('C03.sides', 5)
 
     # ---- C03.lookup / C03.injected ------------------------------------------------------------------------------------------------------
-    dpi = prog.cls('adv_shell.common', 'DznPortItf')
-    ctors = [c for c in iter_own_nodes(cde.node) if isinstance(c, ast.Call) and prog.resolve_expr_symbol(cde.module, c.func) is dpi]
-    if len(ctors) < 1:
-        run.error('C03.lookup', cde.module.name, cde.qualname, 'DznPortItf constructions', 'no DznPortItf construction found')
-    fields = list(prog.class_fields(dpi).keys())
-    for c in ctors:
-        args = {fields[i]: a for i, a in enumerate(c.args) if i < len(fields)}
-        args.update({k.arg: k.value for k in c.keywords if k.arg})
-        port, sem = args.get('port'), args.get('semantics')
-        ok = False
-        why = 'semantics argument is not the lookup result for the same port'
-        if isinstance(port, ast.Name) and sem is not None:
-            names = {x.id for x in ast.walk(sem) if isinstance(x, ast.Name)}
-            mentions_port = port.id in names
-            is_lookup = isinstance(sem, (ast.Call, ast.Subscript))
-            # the looked-up table is the match result
-            uses_match = any(strip_opt(abs_.type_at(cde, x, c)) == ('cls', mp.fq)
-                             for x in ast.walk(sem) if isinstance(x, (ast.Name, ast.Attribute)))
-            ok = mentions_port and is_lookup and uses_match
-            if ok:
-                why = f'semantics = lookup of `{port.id}` in the match result, handed on unchanged'
-        run.add('C03.lookup', cde.module.name, cde.qualname, c, ok, why, node=c)
-    # injected filter, decided per scenario (direction of the port x injected flag) over the dominating conditions of the
-    # construction sites - whatever the shape of the branching (nested ifs, guard clauses, a predicate helper)
-    def single_def(nm: ast.Name):
-        defs = [a for a in iter_own_nodes(cde.node) if isinstance(a, ast.Assign) and len(a.targets) == 1
-                and isinstance(a.targets[0], ast.Name) and a.targets[0].id == nm.id]
-        return defs[0].value if len(defs) == 1 else None
+    from .shared import dzn_elements_by_interpretation
+    sem_de = dzn_elements_by_interpretation(ctx)
+    if sem_de is not None:
+        # decided on scenario models (E7): which ports are exposed, in which order, with which semantics and interface
+        for rule_, label_ in (('C03.injected', 'exposed ports: all provides ports and the requires ports that are not injected, in declaration order'),
+                              ('C03.lookup', 'every exposed port carries the semantics configured for that very port and the interface its type names'),
+                              ('C03.total', 'a port the configuration leaves without semantics is refused with AdvShellError')):
+            probs_ = sem_de[rule_]
+            for k_ in range(3 if rule_ != 'C03.total' else 1):
+                run.add(rule_, cde.module.name, cde.qualname, f'{label_} (scenario {k_ + 1})' if rule_ != 'C03.total' else label_, not probs_,
+                        label_ + ' - create_dzn_elements interpreted on three port orders' if not probs_ else '; '.join(probs_[:2]))
+        run.stats['dzn_elements_decided_by'] = f'interpretation of create_dzn_elements on {sem_de["#"][0]} scenario models (E7)'
+    if sem_de is None:
+        dpi = prog.cls('adv_shell.common', 'DznPortItf')
+        ctors = [c for c in iter_own_nodes(cde.node) if isinstance(c, ast.Call) and prog.resolve_expr_symbol(cde.module, c.func) is dpi]
+        if len(ctors) < 1:
+            run.error('C03.lookup', cde.module.name, cde.qualname, 'DznPortItf constructions', 'no DznPortItf construction found')
+        fields = list(prog.class_fields(dpi).keys())
+        for c in ctors:
+            args = {fields[i]: a for i, a in enumerate(c.args) if i < len(fields)}
+            args.update({k.arg: k.value for k in c.keywords if k.arg})
+            port, sem = args.get('port'), args.get('semantics')
+            ok = False
+            why = 'semantics argument is not the lookup result for the same port'
+            if isinstance(port, ast.Name) and sem is not None:
+                names = {x.id for x in ast.walk(sem) if isinstance(x, ast.Name)}
+                mentions_port = port.id in names
+                is_lookup = isinstance(sem, (ast.Call, ast.Subscript))
+                # the looked-up table is the match result
+                uses_match = any(strip_opt(abs_.type_at(cde, x, c)) == ('cls', mp.fq)
+                                 for x in ast.walk(sem) if isinstance(x, (ast.Name, ast.Attribute)))
+                ok = mentions_port and is_lookup and uses_match
+                if ok:
+                    why = f'semantics = lookup of `{port.id}` in the match result, handed on unchanged'
+            run.add('C03.lookup', cde.module.name, cde.qualname, c, ok, why, node=c)
+        # injected filter, decided per scenario (direction of the port x injected flag) over the dominating conditions of the
+        # construction sites - whatever the shape of the branching (nested ifs, guard clauses, a predicate helper)
+        def single_def(nm: ast.Name):
+            defs = [a for a in iter_own_nodes(cde.node) if isinstance(a, ast.Assign) and len(a.targets) == 1
+                    and isinstance(a.targets[0], ast.Name) and a.targets[0].id == nm.id]
+            return defs[0].value if len(defs) == 1 else None
 
-    pd = prog.cls('ast', 'PortDirection')
-    port_var = next((prog.bind_call(cde.module, c).get('port') for c in ctors), None)
-    for direction, injected, want in (('PROVIDES', False, True), ('PROVIDES', True, True), ('REQUIRES', False, True),
-                                      ('REQUIRES', True, False)):
-        def leaf(e, direction=direction, injected=injected):
-            if isinstance(e, ast.Compare) and len(e.ops) == 1 and isinstance(e.ops[0], (ast.Eq, ast.NotEq, ast.Is, ast.IsNot)):
-                for a_, b_ in ((e.left, e.comparators[0]), (e.comparators[0], e.left)):
-                    sym = prog.resolve_expr_symbol(cde.module, b_) if isinstance(b_, (ast.Name, ast.Attribute)) else None
-                    if isinstance(sym, tuple) and sym[0] == 'enum_member' and sym[1] is pd and ast.unparse(a_).endswith('.direction'):
-                        r = sym[2] == direction
-                        return r if isinstance(e.ops[0], (ast.Eq, ast.Is)) else not r
-            if isinstance(e, ast.Attribute) and ast.unparse(e).endswith('.injected.value'):
-                return injected
-            return None
-        rs = [reach_under(ctx, c, leaf, single_def,
-                          relevant=lambda e: any(t in ast.unparse(e) for t in ('.direction', '.injected')) or any(
-                              isinstance(x, ast.Call) and isinstance(prog.resolve_expr_symbol(cde.module, x.func), FuncInfo)
-                              and any(isinstance(y, ast.Name) and y.id == getattr(port_var, 'id', None)
-                                      for a_ in x.args for y in ast.walk(a_)) for x in ast.walk(e))) for c in ctors]
-        got = True if any(r is True for r in rs) else None if any(r is None for r in rs) else False
-        what = f'{direction.lower()} port, injected={injected}'
-        if got is None:
-            run.error('C03.injected', cde.module.name, cde.qualname, what,
-                      f'whether a {what} gets a DznPortItf depends on a condition this rule cannot evaluate')
-        else:
-            run.add('C03.injected', cde.module.name, cde.qualname, what, got == want,
-                    (f'a {what} is exposed' if want else 'an injected requires port is not exposed') if got == want else
-                    (f'a {what} is not exposed (no DznPortItf is built for it): the port is dropped from the shell' if want else
-                     'an injected requires port is exposed: it would need a semantics although it is bound through the locator'),
-                    node=ctors[0] if ctors else None)
-    # the key used inside the lookup helper is the port *name*
-    for fn in prog.all_functions():
-        if fn.module is ps_mod:
-            continue
-        for n in iter_own_nodes(fn.node):
-            keyexpr = None
-            if isinstance(n, ast.Subscript) and isinstance(n.ctx, ast.Load) and isinstance(n.value, ast.Attribute) and \
-                    n.value.attr == 'value' and strip_opt(abs_.type_at(fn, n.value.value, n)) == ('cls', mp.fq):
-                keyexpr = n.slice
-            elif isinstance(n, ast.Call) and isinstance(n.func, ast.Attribute) and n.func.attr == 'get' and n.args and \
-                    isinstance(n.func.value, ast.Attribute) and n.func.value.attr == 'value' and \
-                    strip_opt(abs_.type_at(fn, n.func.value.value, n)) == ('cls', mp.fq):
-                keyexpr = n.args[0]
-            if keyexpr is not None:
-                key = ast.unparse(keyexpr)
-                ok = key.endswith('.name') and not key.endswith('type_name')
-                run.add('C03.lookup', fn.module.name, fn.qualname, n, ok,
-                        'the match result is keyed by the port name' if ok else f'the match result is keyed by `{key}`',
-                        node=n)
+        pd = prog.cls('ast', 'PortDirection')
+        port_var = next((prog.bind_call(cde.module, c).get('port') for c in ctors), None)
+        for direction, injected, want in (('PROVIDES', False, True), ('PROVIDES', True, True), ('REQUIRES', False, True),
+                                          ('REQUIRES', True, False)):
+            def leaf(e, direction=direction, injected=injected):
+                if isinstance(e, ast.Compare) and len(e.ops) == 1 and isinstance(e.ops[0], (ast.Eq, ast.NotEq, ast.Is, ast.IsNot)):
+                    for a_, b_ in ((e.left, e.comparators[0]), (e.comparators[0], e.left)):
+                        sym = prog.resolve_expr_symbol(cde.module, b_) if isinstance(b_, (ast.Name, ast.Attribute)) else None
+                        if isinstance(sym, tuple) and sym[0] == 'enum_member' and sym[1] is pd and ast.unparse(a_).endswith('.direction'):
+                            r = sym[2] == direction
+                            return r if isinstance(e.ops[0], (ast.Eq, ast.Is)) else not r
+                if isinstance(e, ast.Attribute) and ast.unparse(e).endswith('.injected.value'):
+                    return injected
+                return None
+            rs = [reach_under(ctx, c, leaf, single_def,
+                              relevant=lambda e: any(t in ast.unparse(e) for t in ('.direction', '.injected')) or any(
+                                  isinstance(x, ast.Call) and isinstance(prog.resolve_expr_symbol(cde.module, x.func), FuncInfo)
+                                  and any(isinstance(y, ast.Name) and y.id == getattr(port_var, 'id', None)
+                                          for a_ in x.args for y in ast.walk(a_)) for x in ast.walk(e))) for c in ctors]
+            got = True if any(r is True for r in rs) else None if any(r is None for r in rs) else False
+            what = f'{direction.lower()} port, injected={injected}'
+            if got is None:
+                run.error('C03.injected', cde.module.name, cde.qualname, what,
+                          f'whether a {what} gets a DznPortItf depends on a condition this rule cannot evaluate')
+            else:
+                run.add('C03.injected', cde.module.name, cde.qualname, what, got == want,
+                        (f'a {what} is exposed' if want else 'an injected requires port is not exposed') if got == want else
+                        (f'a {what} is not exposed (no DznPortItf is built for it): the port is dropped from the shell' if want else
+                         'an injected requires port is exposed: it would need a semantics although it is bound through the locator'),
+                        node=ctors[0] if ctors else None)
+        # the key used inside the lookup helper is the port *name*
+        for fn in prog.all_functions():
+            if fn.module is ps_mod:
+                continue
+            for n in iter_own_nodes(fn.node):
+                keyexpr = None
+                if isinstance(n, ast.Subscript) and isinstance(n.ctx, ast.Load) and isinstance(n.value, ast.Attribute) and \
+                        n.value.attr == 'value' and strip_opt(abs_.type_at(fn, n.value.value, n)) == ('cls', mp.fq):
+                    keyexpr = n.slice
+                elif isinstance(n, ast.Call) and isinstance(n.func, ast.Attribute) and n.func.attr == 'get' and n.args and \
+                        isinstance(n.func.value, ast.Attribute) and n.func.value.attr == 'value' and \
+                        strip_opt(abs_.type_at(fn, n.func.value.value, n)) == ('cls', mp.fq):
+                    keyexpr = n.args[0]
+                if keyexpr is not None:
+                    key = ast.unparse(keyexpr)
+                    ok = key.endswith('.name') and not key.endswith('type_name')
+                    run.add('C03.lookup', fn.module.name, fn.qualname, n, ok,
+                            'the match result is keyed by the port name' if ok else f'the match result is keyed by `{key}`',
+                            node=n)
     # who may refuse a port without semantics: only the consumer, after the injected ports are filtered out.  The name
     # sets handed to match() contain the injected requires ports (portnames_t does not filter), which never need one.
     psel = prog.modules.get('dznpy.adv_shell.port_selection')
